@@ -204,8 +204,38 @@ class GhostSelf:
         w.check("C06", "fit/compute_batch_gradients gets the requested k", k is w.k)
         w.check(("C06", "C12"), "fit/gradients computed inside a batch event pair", w.phase == "IN_BATCH")
         w.batch_log.append("grads")
-        w.cur_grads = [("grad", n, w.batch_token) for n in w.netnames]
+        w.cur_grads = [GhostGrad(w, ("grad", n, w.batch_token)) for n in w.netnames]
         return list(w.cur_grads)
+
+
+class GhostGrad(tuple):
+    """The gradient vector of one network for one batch: an opaque value (equal to the plain token it wraps). The
+    questions a tensor can be asked about its contents have both answers - the entries are any numbers, zeros included."""
+
+    def __new__(cls, w, token):
+        self = tuple.__new__(cls, token)
+        self.w = w
+        return self
+
+    def _ask(self, what):
+        return bool(self.w.vc.fork("%s of the gradient of %s" % (what, self[1])))
+
+    def any(self, *a, **k):
+        return self._ask("any()")
+
+    def all(self, *a, **k):
+        return self._ask("all()")
+
+    def norm(self, *a, **k):
+        v = self.w.vc.fresh_real("norm_grad_%s" % self[1])
+        self.w.vc.assume(v >= 0)
+        return v
+
+    def sum(self, *a, **k):
+        return self.w.vc.fresh_real("sum_grad_%s" % self[1])
+
+    def numel(self):
+        return self.w.vc.fresh_int("numel_grad_%s" % self[1], 1)
 
 
 class GhostCallbacks:
